@@ -265,7 +265,8 @@ void HttpMessage::readHeaders()
 	{
 		if (isspace(line[0])) // multiline
 		{
-			setHeader(headerName, headerValue + line.trimmed());
+			headerValue += line.trimmed(); // keep it: the value may continue on further lines
+			setHeader(headerName, headerValue);
 			continue;
 		}
 		line.trim();
